@@ -6,7 +6,9 @@
     proved for the code after the read: C18 is PARTIAL with respect to file reading. *)
 From Coq Require Import List Bool ZArith NArith QArith Arith Permutation.
 From DV Require Import Common.Res Common.Str Generated.T_group Group.Model Group.Spec
-  Group.ProofsBase Group.ProofsGroup Group.ProofsClasses Group.ProofsSkip Group.ProofsIsolation Group.Examples.
+  Group.ProofsBase Group.ProofsGroup Group.ProofsClasses Group.ProofsSkip Group.ProofsIsolation Group.Examples
+  Group.ProofsReal.
+From DV Require Stack.Model.
 Import ListNotations.
 
 (** Every readable image file lies in exactly one group (the concatenation of the groups' member lists
@@ -115,6 +117,25 @@ Theorem C18_parse_and_stack_isolation :
                 (parse_and_stack state add group_by atol true init (drop_files p l)).
 Proof. intros. eapply parse_and_stack_isolation; eassumption. Qed.
 
+(** The same two statements with [add] := the Stack model's add_dcm ([real_add st f] = the state after
+    [Stack.Model.step st (OAdd f)] and the exception; equal to [add_of_res Stack.Model.add_dcm]).  The
+    hypothesis "transactional" is discharged by C11's lemma (a refused add leaves the stack as it was). *)
+Theorem C18_stack_real :
+  forall init g1 (f : Stack.Model.file) g2 st1 w1 e,
+    stack_group _ real_add true init g1 = Ok (st1, w1) -> Stack.Model.add_dcm st1 f = Err e ->
+    stack_group _ real_add true init (g1 ++ f :: g2) = bump_warn 1 (stack_group _ real_add true init (g1 ++ g2)).
+Proof. exact stack_real. Qed.
+
+Theorem C18_parse_and_stack_isolation_real :
+  forall (p : Stack.Model.file -> bool) (group_by : list str) (atol : Q) init (l : list (rd Stack.Model.file)) gs w,
+    0 <= atol ->
+    parse_and_group group_by default_close_keys atol true l = Ok (gs, w) ->
+    (forall g f, In g gs -> hd_error (snd g) = Some f -> p f = true) ->
+    (forall g, In g gs -> refused_along p real_add init (snd g)) ->
+    parse_and_stack _ real_add group_by atol true init l
+    = bump_warn (length l - length (drop_files p l)) (parse_and_stack _ real_add group_by atol true init (drop_files p l)).
+Proof. exact parse_and_stack_isolation_real. Qed.
+
 (* ------------------------------------------------------------------ non-vacuity *)
 
 (** three series (one with two files whose orientations differ by 3e-5), an unreadable file and a
@@ -208,6 +229,39 @@ Proof.
   eexists. eexists. split; [vm_compute; reflexivity|]. split; [|split; [|split]].
   - intros g f [<-|[<-|[<-|[]]]]; cbn [snd hd_error]; intros E; injection E as <-; reflexivity.
   - intros g [<-|[<-|[<-|[]]]]; cbn; repeat split; eauto.
+  - vm_compute. reflexivity.
+  - vm_compute. reflexivity.
+Qed.
+
+(** Stack files: sA, a collider sC (same position and time point, other TR and phase direction), sB,
+    an incongruent sD (other Rows); explicit time order.  The refused files leave no trace. *)
+Example C18_stack_real_ex :
+  (forall st f, real_add st f = add_of_res Stack.Model.add_dcm st f) /\
+  (exists st1 w1, stack_group _ real_add true sinit [sA] = Ok (st1, w1) /\ Stack.Model.add_dcm st1 sC = Err ECollision) /\
+  stack_group _ real_add true sinit ([sA] ++ sC :: [sB; sD]) = bump_warn 1 (stack_group _ real_add true sinit ([sA] ++ [sB; sD])) /\
+  rmap (fun x => (map (fun e => Stack.Model.f_id (fst e)) (Stack.Model.files_info (fst x)), snd x))
+       (stack_group _ real_add true sinit [sA; sC; sB; sD]) = Ok ([0; 1]%nat, 2%nat).
+Proof.
+  split; [|split; [|split]].
+  - exact real_add_is_add_dcm.
+  - eexists. eexists. split; vm_compute; reflexivity.
+  - vm_compute. reflexivity.
+  - vm_compute. reflexivity.
+Qed.
+
+Example C18_parse_and_stack_isolation_real_ex :
+  exists gs w,
+    parse_and_group default_group_keys default_close_keys group_atol true real_l = Ok (gs, w) /\
+    (forall g f, In g gs -> hd_error (snd g) = Some f -> keep_real f = true) /\
+    (forall g, In g gs -> refused_along keep_real real_add sinit (snd g)) /\
+    (length real_l - length (drop_files keep_real real_l) = 2)%nat /\
+    ids_of (parse_and_stack_default _ real_add true sinit real_l) = Ok ([[0; 1]]%nat, 3%nat) /\
+    ids_of (parse_and_stack_default _ real_add true sinit (drop_files keep_real real_l)) = Ok ([[0; 1]]%nat, 1%nat).
+Proof.
+  eexists. eexists. split; [vm_compute; reflexivity|]. split; [|split; [|split; [|split]]].
+  - intros g f [<-|[]]; cbn [snd hd_error]; intros E; injection E as <-; reflexivity.
+  - intros g [<-|[]]. vm_compute. repeat split; eauto.
+  - vm_compute. reflexivity.
   - vm_compute. reflexivity.
   - vm_compute. reflexivity.
 Qed.
